@@ -376,7 +376,8 @@ func subscribersWriters(c *Ctx) {
 			return false
 		}) {
 			n++
-			if an.FuncName(an.Host(in.Parent())) != "(*ChanPubSub).addSubscribers" {
+			// (in addSubscribers, or spelled out in Add itself - where the lock requirement REQ applies to it just the same)
+			if h := an.FuncName(an.Host(in.Parent())); h != "(*ChanPubSub).addSubscribers" && h != "(*ChanPubSub).Add" {
 				stray = append(stray, in)
 			}
 		}
@@ -385,7 +386,7 @@ func subscribersWriters(c *Ctx) {
 	for _, in := range stray {
 		ps = append(ps, P.InstrPos(in))
 	}
-	c.C.Add("WR", "(*ChanPubSub).addSubscribers", "the subscriber count is modified only by addSubscribers", n > 0 && len(stray) == 0,
+	c.C.Add("WR", "(*ChanPubSub).Add", "the subscriber count is modified only by addSubscribers", n > 0 && len(stray) == 0,
 		pickS(len(stray) == 0, "every atomic write of ChanPubSub.subscribers is in addSubscribers", "ChanPubSub.subscribers is modified outside addSubscribers: that writer is not covered by the sendingMu protocol (a subscriber could join while a Send is delivering)"), ps...)
 }
 
@@ -586,6 +587,12 @@ func pubsubC07(c *Ctx) {
 				}
 				q.add("PATH", "the decrement is routed through the caster only when a send is in flight", good,
 					pickS(good, "ping.Add(delta) reached only through ok == false", "ping.Add(delta) can run although the read lock was obtained (no send in flight): it would corrupt the caster's count or block"), da)
+				// ... once, with the delta of this call: the caster absorbs exactly one in-flight copy per departing
+				// subscription (applied once per unit of delta it would absorb |delta|^2 copies, the rest stolen from
+				// subscribers that stay)
+				once := len(dAdds) == 1 && !P.InCycle(da) && len(q.fn.Params) >= 2 && srcIs(P, callArg(da, 1), q.fn.Params[1]) && len(P.Sources(callArg(da, 1))) == 1
+				q.add("PATH", "a departing subscription absorbs exactly its own copies", once,
+					pickS(once, "one ping.Add(delta), outside any loop, with Add's own delta", "ping.Add for an unsubscribe runs more than once, or not with this call's delta: it absorbs copies that belong to standing subscribers"), da)
 			}
 		}
 	}
@@ -707,8 +714,110 @@ func casterPoison(c *Ctx) {
 		pickS(ok, "every panic reachable from the read lock is preceded by state.Add", "a panic under the read lock can be raised before the state was modified: the violation is reported once and then forgotten"), bad...)
 }
 
+// casterSticky: "and every later call panics too". The state word cannot carry that on its own: every Add applies its
+// delta before it validates, so a later (itself invalid) Add can move a damaged word back into a valid state
+// (Add(-1), Add(1) on an idle caster both panic and leave 0 behind). The violation therefore has to be recorded in
+// something no call undoes: a flag of the caster that (1) is set before every panic that follows an access of the
+// state, (2) is tested by Add and Send before they touch the state, the set side leading to nothing but a panic, and
+// (3) is never cleared.
+func casterSticky(c *Ctx) {
+	P := c.P
+	isState := func(in ssa.Instruction) bool {
+		cc := an.CallCommonOf(in)
+		if cc == nil || len(cc.Args) == 0 {
+			return false
+		}
+		n := P.CalleeName(cc)
+		return strings.HasPrefix(n, "(*sync/atomic.Uint64).") && an.FieldOfAddr(cc.Args[0]) == "ChanCaster.state"
+	}
+	flagOp := func(in ssa.Instruction, op string) (string, bool) {
+		cc := an.CallCommonOf(in)
+		if cc == nil || len(cc.Args) == 0 || P.CalleeName(cc) != "(*sync/atomic.Bool)."+op {
+			return "", false
+		}
+		f := an.FieldOfAddr(cc.Args[0])
+		return f, strings.HasPrefix(f, "ChanCaster.")
+	}
+	// (3) never cleared, anywhere
+	for _, fn := range P.AllFuncs() {
+		if !P.IsLib(an.Canon(fn)) {
+			continue
+		}
+		for _, in := range an.AllInstrs(fn, func(in ssa.Instruction) bool { _, ok := flagOp(in, "Store"); return ok }) {
+			bv, isB := constBool(an.CallCommonOf(in).Args[1])
+			fq := &fq{c: c, fn: fn, name: an.FuncName(fn)}
+			fq.add("WR", "the record of a violation is never cleared", isB && bv, pickS(isB && bv, "the flag is only ever set", "the flag that records an invariant violation can be reset"), in)
+		}
+		for _, op := range []string{"Swap", "CompareAndSwap"} {
+			for _, in := range an.AllInstrs(fn, func(in ssa.Instruction) bool { _, ok := flagOp(in, op); return ok }) {
+				fq := &fq{c: c, fn: fn, name: an.FuncName(fn)}
+				fq.add("WR", "the record of a violation is never cleared", false, "the flag that records an invariant violation is modified by "+op, in)
+			}
+		}
+	}
+	for _, name := range []string{"(*ChanCaster).Add", "(*ChanCaster).Send"} {
+		q := c.F(name)
+		if !q.ok() {
+			continue
+		}
+		fn := q.fn
+		accs := an.AllInstrs(fn, isState)
+		if !q.need(accs, "PATH", "access of the state word") {
+			continue
+		}
+		marks := an.AllInstrs(fn, func(in ssa.Instruction) bool {
+			_, ok := flagOp(in, "Store")
+			return ok
+		})
+		tests := an.AllInstrs(fn, func(in ssa.Instruction) bool {
+			_, ok := flagOp(in, "Load")
+			return ok
+		})
+		// (2) tested first, the set side only panics
+		var gate *ssa.If
+		gateSet := 0
+		for _, t := range tests {
+			tv, _ := t.(ssa.Value)
+			ifs, negs := P.IfsOn(fn, func(cond ssa.Value) bool { return tv != nil && cond == tv })
+			if len(ifs) == 1 {
+				gate = ifs[0]
+				if negs[0] {
+					gateSet = 1
+				}
+			}
+		}
+		okGate := gate != nil
+		if okGate {
+			for _, a := range accs {
+				if !q.onlyViaEdge(a, gate, 1-gateSet) {
+					okGate = false
+				}
+			}
+			if P.PathExists(fn, gate, an.IsReturn, nil, cutEdge(gate, 1-gateSet)) {
+				okGate = false
+			}
+		}
+		q.add("PATH", "a caster that reported a violation refuses every later call", okGate, pickS(okGate, "the violation flag is tested before the state is touched; when it is set the call can only panic", "nothing but the state word records an earlier violation, and a later invalid Add can move that word back into a valid state (Add(-1); Add(1) on an idle caster: both panic, afterwards Add(0) and Send succeed)"), accs[0])
+		// (1) set before every panic that follows an access of the state
+		for _, pn := range an.AllInstrs(fn, an.IsPanic) {
+			after := false
+			for _, a := range accs {
+				if P.PathExists(fn, a, an.Is(pn), nil, nil) {
+					after = true
+				}
+			}
+			if !after {
+				continue // argument rejected (or the flag found set) before the state was looked at
+			}
+			okm := len(marks) > 0 && P.Before(fn, an.In(marks), pn)
+			q.add("PATH", "an invariant violation is recorded before it is reported", okm, pickS(okm, "the panic is dominated by setting the violation flag", "this panic leaves no record but the state word itself: see the rule above"), pn)
+		}
+	}
+}
+
 func casterC08(c *Ctx) {
 	casterPoison(c)
+	casterSticky(c)
 	P := c.P
 	const max = 2147483647
 	if q := c.F("(*ChanCaster).Add"); q.ok() {
@@ -776,7 +885,7 @@ func casterC08(c *Ctx) {
 			// guarded by lo == MaxInt32 + hi
 			ifs, negs := P.IfsOn(q.fn, func(cond ssa.Value) bool {
 				b, ok := cond.(*ssa.BinOp)
-				if !ok || b.Op != token.EQL {
+				if !ok || (b.Op != token.EQL && b.Op != token.NEQ) {
 					return false
 				}
 				isSum := func(v ssa.Value) bool {
@@ -792,9 +901,13 @@ func casterC08(c *Ctx) {
 			})
 			good := false
 			for i, ifi := range ifs {
+				// the edge on which the equality holds (`if lo != max+hi { break }` takes it on the false side)
 				ts := 0
 				if negs[i] {
 					ts = 1
+				}
+				if stripNotV(ifi.Cond).(*ssa.BinOp).Op == token.NEQ {
+					ts = 1 - ts
 				}
 				if q.onlyViaEdge(rv, ifi, ts) {
 					good = true
@@ -1103,6 +1216,9 @@ func init() {
 			for _, o := range c.C.List {
 				// (the caster's own validations included: a panic of ChanCaster.Send / Add inside a ChanPubSub call is a false
 				// invariant panic of the ChanPubSub, which then marks the instance broken for good)
+				if subjHas(o, "reported a violation", "recorded before it is reported", "record of a violation") {
+					continue // what a caster does after a violation is C08's clause, not part of "no false panic"
+				}
 				if funcHas(o, "(*ChanPubSub)", "(*ChanCaster).Send", "(*ChanCaster).Add") || o.Rule == "ANCHOR" {
 					mine = append(mine, o)
 				}
@@ -1124,7 +1240,7 @@ func init() {
 		ID:        "C08",
 		Technique: "path-condition equivalence for the delta range checks, only-via-edge and dominance rules on ChanCaster.Send/Add, lock requirements conditional on the sign of delta (lock simulator), panic-exit lock-leak rule, compile-fail witnesses for the atomic state word",
 		Explanation: "the atomic state is changed only for a delta within [-MaxInt32, MaxInt32] (out-of-range deltas panic); Send holds the write lock from its first load to the reset CAS and releases it by a defer on every exit including panics; positive Add holds the read lock at state.Add, negative Add acquires nothing; values are sent only after the arming CAS succeeded, one per receiver of the armed state; " +
-			"after the loop Send returns only after the validations and the successful reset CAS, every other exit panics, and the value returned is the hi word read after the loop; a negative Add absorbs exactly |delta| values and only while a send is in flight (lo == MaxInt32 + hi); unbalanced Adds panic; only ChanCaster.Send sends on C; the state word cannot be touched non-atomically (type-level).",
+			"after the loop Send returns only after the validations and the successful reset CAS, every other exit panics, and the value returned is the hi word read after the loop; a negative Add absorbs exactly |delta| values and only while a send is in flight (lo == MaxInt32 + hi); unbalanced Adds panic; an invariant violation is recorded in the caster's violation flag before it is reported, Add and Send test that flag before they touch the state (set: they can only panic) and nothing clears it; only ChanCaster.Send sends on C; the state word cannot be touched non-atomically (type-level).",
 		NotDecided: "the who-received-what statement under racing Adds (interleavings of individual atomic operations).",
 		Build: func(c *Ctx) []*an.Oblig {
 			casterC08(c)
